@@ -191,3 +191,25 @@ func verifC20Estimate(variant int) {
 		verifAssert("C20.estimate.other-class-no-cpu-limit-no-memory-request", !hasCPULim && !hasMemReq)
 	}
 }
+
+// node memory capacities (bytes) for VerifC20OomTable: the minimum, odd sizes,
+// common sizes, and sizes whose capacity/1000 does not fit 32 bits
+var verifC20Capacities = []int64{
+	1 << 20, 1<<20 + 1, 999999999, 4 << 30, 63<<30 + 12345, 16 << 30, 1536 << 30,
+	2 << 40, 2164663517184, 3 << 40, 6 << 40, 64 << 40,
+}
+
+// VerifC20OomTable: for a capacity of the table the OOM-adjustment table is
+// built without failing, and every Burstable adjustment 3..999 maps to a
+// request estimate that maps back to the same adjustment.
+func VerifC20OomTable() {
+	capacity := verifC20Capacities[verifChoice("capacity", verifParam("capacities", len(verifC20Capacities)))]
+	kubernetes.SetMemoryCapacity(capacity) // a panic here is reported as finding `panic`
+	verifCover("table-built")
+	ok := true
+	for adj := int64(kubernetes.MinBurstableOOMScoreAdj); adj <= kubernetes.MaxBurstableOOMScoreAdj; adj++ {
+		est := kubernetes.OomAdjToMemReq(adj, 0)
+		ok = ok && est != nil && kubernetes.MemReqToOomAdj(*est) == adj
+	}
+	verifAssert("C20.oom-table.every-burstable-adjustment-maps-back", ok)
+}
